@@ -74,6 +74,7 @@ int finish(void);
 extern int g_paint;                 /* -1: off; else the byte pattern (--paint) */
 void verif_paint_stack(void);       /* fills the stack below the caller with the pattern */
 void verif_paint_obj(void *p, size_t n);  /* caller object before init/set_key: pattern, or poison under MSan */
+uint64_t verif_shadow_sig(const void *p, size_t n);   /* which bytes MemorySanitizer holds uninitialised (0 elsewhere) */
 void verif_unpoison(void *p, size_t n);   /* harness-side bookkeeping copies of painted memory (MSan builds) */
 /* order-independent digest of everything the library returned (outputs, schedules, return values) */
 extern uint64_t g_out_sum;
